@@ -21,10 +21,37 @@ import (
 
 type c12CLIInput struct {
 	GenSeed int64 `json:"genSeed"`
-	SetTTL  bool  `json:"setTTL"` // transactionTTL configured explicitly (to 24h) or left to its default
+	SetTTL  bool  `json:"setTTL"` // transactionTTL configured explicitly (to 24h, or to TTL when given) or left to its default
+	// Zone: the process's local time zone for the case, in seconds east of UTC (0: left as it is);
+	// TTL: the value configured when SetTTL (""= 24h)
+	Zone int    `json:"zone,omitempty"`
+	TTL  string `json:"ttl,omitempty"`
 }
 
-func c12CLIRun(in *c12CLIInput) Res {
+// c12InZone runs f with the process's local time zone set to a fixed offset (seconds east of UTC;
+// 0: unchanged). Cases run one at a time, and the commands run in this process, so everything that
+// asks for the local time during f — the harness, the command, the SQLite driver rendering a
+// time.Time — sees the same zone.
+func c12InZone(zone int, f func()) {
+	if zone != 0 {
+		old := time.Local
+		time.Local = time.FixedZone("verif"+itoa(zone/60), zone)
+		defer func() { time.Local = old }()
+	}
+	f()
+}
+
+// c12ZoneOf: the zone of a gc case is a function of the case index alone.
+func c12ZoneOf(idx int) int {
+	return []int{0, -5 * 3600, 5*3600 + 1800, -8 * 3600}[(idx/20)%4]
+}
+
+func c12CLIRun(in *c12CLIInput) (res Res) {
+	c12InZone(in.Zone, func() { res = c12CLIRunZ(in) })
+	return
+}
+
+func c12CLIRunZ(in *c12CLIInput) Res {
 	root, err := os.MkdirTemp(privateTmp(), "gcli-")
 	if err != nil {
 		return Err("tmpdir")
@@ -56,7 +83,11 @@ func c12CLIRun(in *c12CLIInput) Res {
 			}
 		}
 		if in.SetTTL {
-			if out, ok := run("config", "set", "transactionTTL", "24h"); !ok {
+			ttl := in.TTL
+			if ttl == "" {
+				ttl = "24h"
+			}
+			if out, ok := run("config", "set", "transactionTTL", ttl); !ok {
 				return Res{"res": "err", "kind": out}
 			}
 		}
@@ -122,7 +153,27 @@ func c12CLIRun(in *c12CLIInput) Res {
 
 func runC12CLI(ctx *Ctx) {
 	in := &c12CLIInput{GenSeed: int64(ctx.Idx), SetTTL: ctx.R.Intn(2) == 0}
-	ctx.Emit("gc-cli", in, c12CLIRun(in), true, "cli")
+	tags := []string{"cli"}
+	// every other command-line case runs in a zone away from UTC, with a time-to-live shorter than
+	// the zone's offset when one is configured
+	if (ctx.Idx/40)%2 == 1 {
+		in.Zone = []int{-5 * 3600, 9 * 3600, -10 * 3600}[(ctx.Idx/80)%3]
+		if in.SetTTL {
+			in.TTL = "1h"
+		}
+		tags = append(tags, c12ZoneTag(in.Zone))
+	}
+	ctx.Emit("gc-cli", in, c12CLIRun(in), true, tags...)
+}
+
+func c12ZoneTag(zone int) string {
+	switch {
+	case zone < 0:
+		return "zone-west-of-utc"
+	case zone > 0:
+		return "zone-east-of-utc"
+	}
+	return "zone-utc"
 }
 
 // ---------------------------------------------------------------------------------------------
@@ -146,11 +197,16 @@ type c12GCSpec struct {
 	Cmd     string   `json:"cmd"`    // "gc" or "prune"
 	SetTTL  string   `json:"setTTL"` // value given to `config set transactionTTL` ("" = left to its default)
 	TTL     int64    `json:"ttl"`    // effective time-to-live in seconds
+	Zone    int      `json:"zone,omitempty"` // the process's local time zone during the case, seconds east of UTC (0: as it is)
 	Txs     []c12Tx  `json:"txs"`
 	RefList []c12Ref `json:"refList"`
 }
 
-func c12GCCase(ctx *Ctx, seed int64, corpus bool) {
+func c12GCCase(ctx *Ctx, seed int64, zone int, corpus bool) {
+	c12InZone(zone, func() { c12GCCaseZ(ctx, seed, zone, corpus) })
+}
+
+func c12GCCaseZ(ctx *Ctx, seed int64, zone int, corpus bool) {
 	root, err := os.MkdirTemp(privateTmp(), "gcrepo-")
 	if err != nil {
 		return
@@ -192,7 +248,7 @@ func c12GCCase(ctx *Ctx, seed int64, corpus bool) {
 		}
 		// parameters of the run, from a stream of their own
 		r := rand.New(rand.NewSource(seed*31 + 7))
-		spec := &c12GCSpec{Cmd: "gc", Txs: []c12Tx{}, RefList: []c12Ref{}}
+		spec := &c12GCSpec{Cmd: "gc", Zone: zone, Txs: []c12Tx{}, RefList: []c12Ref{}}
 		if r.Intn(4) == 0 {
 			spec.Cmd = "prune"
 		}
@@ -232,7 +288,13 @@ func c12GCCase(ctx *Ctx, seed int64, corpus bool) {
 			b[8] = (b[8] & 0x3f) | 0x80
 			id := uuid.UUID(b)
 			// well clear of the time-to-live on either side
-			age := []int64{ttl / 24, ttl - ttl/24, ttl + ttl/24, 3 * ttl}[r.Intn(4)]
+			ages := []int64{ttl / 24, ttl - ttl/24, ttl + ttl/24, 3 * ttl}
+			if zone != 0 {
+				// away from UTC: also half an hour (less than any zone's offset, far more than the
+				// run takes) on either side of the time-to-live
+				ages[1], ages[2] = ttl-1800, ttl+1800
+			}
+			age := ages[r.Intn(4)]
 			tx := &ref.Transaction{ID: id, Status: ref.TSInProgress, Begin: now.Add(-time.Duration(age) * time.Second)}
 			if r.Intn(4) == 0 {
 				tx.Status = ref.TSCommitted
@@ -319,7 +381,7 @@ func c12GCCase(ctx *Ctx, seed int64, corpus bool) {
 		}
 		return
 	}
-	tags := []string{"repo-dir", "cmd=" + in.GC.Cmd}
+	tags := []string{"repo-dir", "cmd=" + in.GC.Cmd, c12ZoneTag(in.GC.Zone)}
 	expired := false
 	for _, t := range in.GC.Txs {
 		if t.Status == string(ref.TSInProgress) && t.Age >= in.GC.TTL {
